@@ -1,13 +1,3 @@
-<<<<<<< HEAD
-import io, socket, sys, threading, time, subprocess, os
-sys.path.insert(0, sys.argv[1] if len(sys.argv) > 1 else "/repo")
-from vinegar.tftp.server import TftpServer, TftpRequestHandler
-
-class H(TftpRequestHandler):
-    def can_handle(self, filename, context): return True
-    def handle(self, filename, client_address, server_address, context):
-        return io.BytesIO(b"x" * 100)
-=======
 #!/usr/bin/env python3
 """
 D20 (C02): a stream of ignored datagrams postpones retransmission and the end of a TFTP transfer.
@@ -30,7 +20,6 @@ import time
 
 sys.path.insert(0, sys.argv[1] if len(sys.argv) > 1 else "/repo")
 from vinegar.tftp.server import TftpServer, TftpRequestHandler  # noqa: E402
->>>>>>> dev-tftp
 
 FLOOD = r'''
 import socket, sys, time
@@ -41,8 +30,6 @@ while time.monotonic() < end:
         try: s.sendto(b"\0\4\0\7", tid)
         except OSError: pass
 '''
-<<<<<<< HEAD
-=======
 
 
 class H(TftpRequestHandler):
@@ -53,41 +40,17 @@ class H(TftpRequestHandler):
         return io.BytesIO(b"x" * 100)
 
 
->>>>>>> dev-tftp
 def main(nproc, dur):
     srv = TftpServer([H()], bind_address="::1", bind_port=0, default_timeout=1, max_retries=1)
     srv.start()
     try:
         port = srv._socket.getsockname()[1]
-<<<<<<< HEAD
-        c = socket.socket(socket.AF_INET6, socket.SOCK_DGRAM); c.bind(("::1", 0))
-=======
         c = socket.socket(socket.AF_INET6, socket.SOCK_DGRAM)
         c.bind(("::1", 0))
->>>>>>> dev-tftp
         c.settimeout(0.2)
         c.sendto(b"\0\1f\0octet\0", ("::1", port))
         d, tid = c.recvfrom(2000)
         t0 = time.monotonic()
-<<<<<<< HEAD
-        ps = [subprocess.Popen([sys.executable, "-c", FLOOD, str(tid[1]), str(dur)]) for _ in range(nproc)]
-        got = []
-        ended = None
-        while time.monotonic() - t0 < dur + 4:
-            try:
-                d2, a = c.recvfrom(2000)
-                if d2[:2] == b"\0\3": got.append(round(time.monotonic() - t0, 2))
-            except socket.timeout:
-                pass
-            n = sum(1 for t in threading.enumerate() if t.daemon and t.name.startswith("Thread"))
-            if ended is None and not any("read" in (t.name or "").lower() or t.name.startswith("Thread-") for t in threading.enumerate() if t is not threading.current_thread() and t is not srv._main_thread):
-                ended = round(time.monotonic() - t0, 2)
-        for p in ps: p.wait()
-        print(nproc, "flood processes for", dur, "s: DATA 1 retransmitted at", got, "; transfer thread ended at", ended, "(bound by the property: retransmit at 1.0, end at 2.0)")
-    finally:
-        srv.stop()
-main(int(sys.argv[2]), float(sys.argv[3]))
-=======
         assert d[:4] == b"\0\3\0\1", d[:4]
         ps = [subprocess.Popen([sys.executable, "-c", FLOOD, str(tid[1]), str(dur)]) for _ in range(nproc)]
         got = []
@@ -110,4 +73,3 @@ main(int(sys.argv[2]), float(sys.argv[3]))
 
 if __name__ == "__main__":
     raise SystemExit(main(int(sys.argv[2]) if len(sys.argv) > 2 else 3, float(sys.argv[3]) if len(sys.argv) > 3 else 6))
->>>>>>> dev-tftp
